@@ -25,7 +25,10 @@ Begin1(e) ==
     /\ exe' = [t \in Threads |-> Exe(jobs[t])]
     /\ scratch' = [t \in Threads |-> Scratch0]
     /\ bound' = [t \in Threads |-> [lo |-> 0, hi |-> 0]]
-    /\ ctx' = [t \in Threads |-> [rowid |-> 0]]
+    /\ ctx' = [t \in Threads |-> Ctx0]
+    /\ parser' = [t \in Threads |-> Parser0]
+    /\ got' = [t \in Threads |-> <<>>]
+    /\ tmemo' = [t \in Threads |-> TMemo0]
     /\ pc' = [t \in Threads |-> IF jobs[t] = Job0 THEN Pc("done", 0) ELSE Pc("compile", 1)]
     /\ cur' = [t \in Threads |-> <<>>]
     /\ out' = [t \in Threads |-> <<>>]
